@@ -75,11 +75,22 @@ def run(ctx):
         subs = [g for g in range(1, 1 << n) if bin(g).count("1") >= 2]
         rng.shuffle(subs)
         full = (1 << n) - 1
-        subs = ([full] if n >= 2 else []) + [g for g in subs if g != full][: (6 if ctx.quick else 30)]
-        for g in subs:
+        chosen = ([full] if n >= 2 else []) + [g for g in subs if g != full][: (6 if ctx.quick else 30)]
+        # failing-input search for the rounding-gap branch: every subgraph whose rounded running sums end below 1
+        # (all of them are scanned; subgraphs that do not contain the highest edge of the graph first)
+        gaps = [g for g in subs if g not in chosen and float_cums(t["entries"], n, g)[-1] < 1.0]
+        gaps.sort(key=lambda g: (g >> (n - 1)) & 1)
+        gaps = gaps[: (8 if ctx.quick else 40)]
+        ctx.count("subgraphs.rounding_gap", len(gaps))
+        for g in chosen + gaps:
             fc = float_cums(t["entries"], n, g)
-            us = [rng.random() for _ in range(3)] + [0.0, 5e-324, 1 - 2 ** -53, 1 - 2 ** -52, 0.5, 0.25, 0.75]
-            for ck in fc:
+            if g in gaps:
+                us = [next_up(fc[-1]), 1 - 2 ** -53, (fc[-1] + 1) / 2]
+                fc_b = []
+            else:
+                us = [rng.random() for _ in range(3)] + [0.0, 5e-324, 1 - 2 ** -53, 1 - 2 ** -52, 0.5, 0.25, 0.75]
+                fc_b = fc
+            for ck in fc_b:
                 if 0 <= ck < 1:
                     us += [ck, next_up(ck), next_down(ck)]
                 elif ck >= 1:
